@@ -1045,7 +1045,7 @@ func init() {
 				if err != nil {
 					return &Mismatch{Step: i, Kind: "errmismatch", Got: "error: " + err.Error(), Exp: "ok", Note: "the library refuses to marshal a valid key"}
 				}
-				der = blob.der
+				der = Roomy(blob.der, 512) // the holder's copy of the container, inside a larger buffer
 				pws = [][]byte{blob.pw}
 				unwrap = blob.unwrap
 				if st.Has("exp") { // raw encodings are exact
@@ -1059,7 +1059,7 @@ func init() {
 					kcHarness("region %q is empty for this container", st.Str("region"))
 				}
 				o := offs[st.Int("idx")%len(offs)]
-				der = append([]byte{}, blob.der...)
+				der = Roomy(blob.der, 512)
 				der[o] ^= byte(st.Int("mask"))
 			case "wrongpw":
 				pws = nil
@@ -1073,6 +1073,10 @@ func init() {
 				for j := 0; j < st.IntOr("sweep", 0); j++ {
 					pws = append(pws, append(append([]byte{}, base...), byte(j/255+1), byte(j%255+1)))
 				}
+			case "rightagain":
+				// the right secret on the same bytes after the refusals
+				pws = [][]byte{blob.pw}
+				unwrap = blob.unwrap
 			case "wrongkey":
 				var err error
 				unwrap, err = sm2.NewPrivateKey(st.Hex("d"))
